@@ -450,12 +450,12 @@ pub fn build() -> Property {
             },
             Phase {
                 name: "bad_inputs",
-                kind: PhaseKind::Gen { cases: (600, 6000), tape_len: 300, f: Box::new(bad_input_case) },
+                kind: PhaseKind::Gen { cases: (3000, 20000), tape_len: 300, f: Box::new(bad_input_case) },
                 threads: 16,
             },
             Phase {
                 name: "contract",
-                kind: PhaseKind::Gen { cases: (800, 8000), tape_len: 64 + 64 + 2000 + 3 * 4000 + 300, f: Box::new(contract_case) },
+                kind: PhaseKind::Gen { cases: (5000, 30000), tape_len: 64 + 64 + 2000 + 3 * 4000 + 300, f: Box::new(contract_case) },
                 threads: 16,
             },
         ],
